@@ -69,8 +69,8 @@ delta_cases = st.builds(
 
 ctrl_cases = st.builds(
     lambda init, puts, how: {'k': 'ctrl', 'init': init, 'puts': puts, 'how': how},
-    st.sampled_from([0, 1, '', 'on', None, 2.5, False, True]),
-    st.lists(st.sampled_from([0, 1, '', 'on', None, False, True, 7]), max_size=4),
+    st.sampled_from([0, 1, '', 'on', None, 2.5, False, True, {}, {'k': 0}, []]),
+    st.lists(st.sampled_from([0, 1, '', 'on', None, False, True, 7, {}, {'k': 0}, [], [0]]), max_size=4),
     st.sampled_from(['name', 'object']))
 
 OPS = [
@@ -367,7 +367,8 @@ def exec_ctrl(case, res):
     if not obs:
         return
     pre = obs[0]
-    if pre[1] is not None and pre[1] is not False:
+    # a filter vetoes by any false result that is not a mapping (Event.send semantics)
+    if isinstance(pre[1], dict) or pre[1]:
         res.fail('C16.ifoutput', f"IfOutput with UNDEF control output passed: {pre[1]!r}")
     if not isinstance(pre[2], dict) or pre[2] != {'value': 5}:
         res.fail('C16.notifinitialized', f"NotIfInitialized with uninitialised control block -> {pre[2]!r}")
